@@ -140,8 +140,11 @@ impl wire::Decode for NodeAnnouncement {
         let alias = wire::Decode::decode(reader)?;
         let addresses = BoundedVec::<Address, ADDRESS_LIMIT>::decode(reader)?;
         let nonce = u64::decode(reader)?;
-        let agent = match UserAgent::decode(reader) {
-            Ok(ua) => ua,
+        // Nb. The user agent is optional: it is defaulted only if the announcement
+        // ends right after the nonce. A user agent that is cut short is an error,
+        // otherwise arbitrary trailing bytes would decode as "no user agent".
+        let agent = match u8::decode(reader) {
+            Ok(len) => UserAgent::decode(&mut io::Read::chain(&[len][..], &mut *reader))?,
             Err(e) if e.is_eof() => UserAgent::default(),
             Err(e) => return Err(e),
         };
